@@ -1,6 +1,6 @@
 (* C09 - Requests are the protocol's, go to the right port, and echo challenges.
    Rows proved so far: Valve. *)
-From GD Require Import Base.Prelude Model.Strings Model.Buffer Model.Net Model.Valve Proofs.Msafe Proofs.ValveTotal.
+From GD Require Import Base.Prelude Model.Strings Model.Buffer Model.Net Model.Valve Model.Quake Proofs.Msafe Proofs.ValveTotal Proofs.QuakeTotal.
 
 (* every datagram the query emits, for any script: addressed to the query's
    port, and a request of the A2S language *)
@@ -25,6 +25,13 @@ Theorem c09_valve_challenge_echoed : forall bz, (forall p s, safe (bz p s)) ->
               = evs ++ SendEv port (to_bytes kind (if kind =? 84 then info_payload ++ c else c)) :: n_trace n.
 Proof. exact valve_challenge_echoed. Qed.
 Print Assumptions c09_valve_challenge_echoed.
+
+(* Quake 1/2/3: the only datagram ever sent is FF FF FF FF "status"|"getstatus" 00, to the query's port *)
+Theorem c09_quake_sends_are_requests : forall port v t u tc sf, settings_ok t ->
+  forall p d, In (SendEv p d) (n_trace (snd (Quake.client_query port v t (net_init u tc sf)))) ->
+  p = port /\ d = [255; 255; 255; 255] ++ send_header v ++ [0].
+Proof. exact quake_sends_are_requests. Qed.
+Print Assumptions c09_quake_sends_are_requests.
 
 Example c09_ex_requests :
   to_bytes 84 (default_payload 84) = [255; 255; 255; 255; 84] ++ str "Source Engine Query" ++ [0]
